@@ -46,6 +46,12 @@ def sbox_key(e):
     box = inner[2][1]
     ix = strip_casts(ix)
     ix = nocast(fold(ix))
+    # usize::from(x.to_be_bytes()[i]) is (x >> (24 - 8 i)) & 0xFF
+    while isinstance(ix, tuple) and ix[0] == "call" and ix[1].split("::")[-1] in ("from", "into") and len(ix[2]) == 1:
+        ix = ix[2][0]
+    if isinstance(ix, tuple) and ix[0] == "idx" and is_const(ix[2]) and isinstance(ix[1], tuple) and ix[1][0] == "call" and ix[1][1].split("::")[-1] in ("to_be_bytes", "to_le_bytes") and ix[1][2] == (("v", 2),) and 0 <= ix[2][1] < 4:
+        i_ = ix[2][1]
+        return (box, 24 - 8 * i_ if ix[1][1].endswith("to_be_bytes") else 8 * i_, 0xFF)
     mask = None
     if isinstance(ix, tuple) and ix[0] == "bin" and ix[1] == "BitAnd":
         a, b = ix[2], ix[3]
@@ -169,6 +175,16 @@ def run(ctx):
                         dom = (lo[1], hi[1], st[1])
             if callee.endswith("Iterator::rev") or callee.endswith("::rev"):
                 reversed_ = True
+        if dom is None:
+            # the same rounds as an explicit counter: `let mut i = K0; while i <op> K1 { ..; i += / -= 2 }`
+            from ..loops import counter_sequence
+
+            cs = counter_sequence(b)
+            want_seq = list(range(*rng))[::-1] if rev else list(range(*rng))
+            if cs is not None and cs[1] == want_seq:
+                dom, reversed_ = rng, rev
+            elif cs is not None:
+                dom = tuple(cs[1])
         ctx.ob("ROUND", f"{fname}|iteration-domain", dom == rng and reversed_ == rev, f"{fname} iterates {dom} reversed={reversed_}; Blowfish needs {rng} reversed={rev}", b.file, b.line)
         # loop variable
         lp = loops[0]
